@@ -2829,6 +2829,10 @@ func (c *Conn) handshake(ctx context.Context, start handshakeStart) error {
 		cancelRead()
 		cancel()
 		handshakeLoopsFinished.Wait()
+		if errors.Is(err, context.Canceled) && ctx.Err() == nil && c.isConnectionClosed() {
+			// Close interrupted the handshake, the caller cancelled nothing.
+			err = ErrConnClosed
+		}
 
 		return c.translateHandshakeCtxError(err)
 	case <-ctx.Done():
